@@ -23,7 +23,7 @@ ASSUMPTIONS = ["distance = lower bound from the orthogonality residual (|R'R-I|/
                "an invalid 4x4 array given to UnitQuaternion is also a legal N x 4 array of quaternions: there the oracle is 'raises or holds unit quaternions'"]
 
 CLASSES = ["SO2", "SE2", "SO3", "SE3", "UQ3", "UQ4", "Twist2", "Twist3", "SE3.SO3"]
-DEFECTS = ["none", "noise", "reflect", "swap", "scale", "wholescale", "lastrow", "zerorow", "algebra", "shape", "inplace"]
+DEFECTS = ["none", "noise", "reflect", "swap", "scale", "wholescale", "lastrow", "lastrow_pattern", "zerorow", "algebra", "shape", "inplace"]
 CONTAINERS = ["bare", "list1", "tuple1", "valid_bad", "bad_valid", "valid_bad_valid"]
 REJECT = 1.05e-6      # the statement: every array whose distance from the group exceeds 1e-6 is rejected
 ACCEPT = 2e-15       # (distance lower bound, see group_distance) values produced by primitive constructors are accepted
@@ -52,7 +52,7 @@ def gen_cells(tier):
             for cont in CONTAINERS:
                 for mag in (3e-6, 1e-4, 0.3):          # 3e-6: just outside the 1e-6 band the statement allows
                     for src in ("ref", "lib"):
-                        for i in (range(4) if d in ("lastrow", "reflect", "algebra") else (1,)):
+                        for i in (range(4) if d in ("lastrow", "reflect", "algebra") else (range(6) if d == "lastrow_pattern" else (1,))):
                             for f32 in ((False, True) if d in ("noise", "scale", "lastrow", "reflect") and src == "ref" else (False,)):
                                 yield {"kind": "ctor", "cls": cls, "defect": d, "container": cont, "m3": m3, "m2": m2, "mag": mag,
                                        "pattern": pat, "i": i, "j": 2, "src": src, "f32": f32}
@@ -66,7 +66,7 @@ def gen_pred_cells(tier):
     m3 = {"rot": {"axis": [0.3, -0.5, 0.8], "angle": 1.1, "via": "rod"}, "t": [1.0, -2.0, 3.0]}
     m2 = {"angle": 0.7, "t": [1.0, -2.0]}
     pat = [0.31, -0.72, 0.55, 0.18, -0.93, 0.44, 0.67, -0.25, 0.81, -0.36, 0.59, 0.12, -0.48, 0.77, -0.64, 0.29]
-    for d in ["none", "noise", "reflect", "swap", "scale", "wholescale", "lastrow", "zerorow"]:
+    for d in ["none", "noise", "reflect", "swap", "scale", "wholescale", "lastrow", "lastrow_pattern", "zerorow"]:
         for mag in (0.0, 3e-6, 1e-4, 0.3):
             for i in range(4):
                 for src in ("ref", "lib"):
@@ -84,7 +84,7 @@ def s_pred():
         "kind": st.just("pred"), "m3": gens.pose3(t_hi=3, lo_exp=-12), "m2": gens.pose2(t_hi=3),
         "mag": st.one_of(gens.logmag(-12, 0), gens.logmag(-5, 0), st.just(0.0)),
         "pattern": st.lists(gens.fl(-1, 1), min_size=16, max_size=16),
-        "defect": st.sampled_from(["none", "noise", "reflect", "swap", "scale", "wholescale", "lastrow", "zerorow"]),
+        "defect": st.sampled_from(["none", "noise", "reflect", "swap", "scale", "wholescale", "lastrow", "lastrow_pattern", "zerorow"]),
         "i": st.integers(0, 3), "j": st.integers(0, 3),
         "vec": st.lists(st.one_of(gens.fl(-1, 1), st.just(0.0)), min_size=2, max_size=6),
         "vmag": st.one_of(gens.logmag(-6, 6), st.just(1.0)),
@@ -172,6 +172,16 @@ def corrupt(M, case, dim, se):
         k = case["i"] % (n + 1)
         M[n, k] += mag
         return M, True
+    if d == "lastrow_pattern":
+        # several wrong entries in the bottom row at once, in patterns whose sum / signed sum / product vanishes
+        if not se:
+            return M, False
+        pats = [[1, -1, 0], [1, 1, -2], [-1, 0, 1], [2, -1, -1], [1, 1, 1], [1, -1, 1]] if n == 3 else [[1, -1], [-1, 1], [1, 1], [2, -2]]
+        pt = np.array(pats[case["i"] % len(pats)], dtype=float) * mag
+        M[n, :n] += pt
+        if case["j"] % 2:
+            M[n, n] = 1.0 + (case["j"] - 2) * mag * 0.0          # corner left exactly 1
+        return M, True
     if d == "shape":
         return np.zeros((n + 2, n + 2)) + np.eye(n + 2), True
     return M, False
@@ -211,7 +221,60 @@ def qdist(q):
     return abs(float(np.linalg.norm(q)) - 1.0)
 
 
+def s_accept_many():
+    return st.fixed_dictionaries({"kind": st.just("accept_many"), "seed": st.integers(0, 2 ** 31 - 1), "n": st.just(250)})
+
+
+def _accept_many(case):
+    """'accept every value produced by the primitive constructors': bulk form - a few hundred general-axis rotations per case
+    through each constructor (the rounding residual of such outputs reaches a dozen eps only once in some thousand draws).
+    The draws are a pure function of the case (NumPy generator seeded with the case's integer)."""
+    b = L.base
+    c = Checker("accept_many")
+    rng = np.random.default_rng(case["seed"])
+    n = case["n"]
+    bad = {}
+
+    def note(site, ok, R):
+        if not ok and site not in bad:
+            bad[site] = R
+    for _ in range(n):
+        ax = rng.normal(size=3)
+        ax = ax / np.linalg.norm(ax)
+        th = float(rng.uniform(-np.pi, np.pi))
+        t = rng.uniform(-3, 3, size=3)
+        q = rng.normal(size=4)
+        for nm, f in (("angvec2r", lambda: b.angvec2r(th, ax)), ("trexp", lambda: b.trexp(ax * th)), ("q2r", lambda: b.q2r(b.unit(q))),
+                      ("rpy2r", lambda: b.rpy2r(th, float(t[0]), float(t[1]))), ("eul2r", lambda: b.eul2r(th, float(t[0]), float(t[1]))),
+                      ("rodrigues", lambda: b.rodrigues(ax, th))):
+            try:
+                R = np.asarray(f(), dtype=float)
+            except Exception:  # noqa  (not this check's business)
+                continue
+            try:
+                note(nm + "->isrot", bool(b.isrot(R, check=True)), R)
+                note(nm + "->SO3.isvalid", bool(L.SO3.isvalid(R, check=True)), R)
+                T = b.rt2tr(R, t)
+                note(nm + "->ishom", bool(b.ishom(T, check=True)), T)
+                note(nm + "->SE3.isvalid", bool(L.SE3.isvalid(T, check=True)), T)
+            except Exception as e:  # noqa
+                note(nm + "->predicate raised %s" % type(e).__name__, False, R)
+        try:
+            R2 = np.asarray(b.rot2(th), dtype=float)
+            note("rot2->isrot2", bool(b.isrot2(R2, check=True)), R2)
+            T2 = np.asarray(b.trexp2(np.r_[t[:2], th]), dtype=float)
+            note("trexp2->ishom2", bool(b.ishom2(T2, check=True)), T2)
+        except Exception as e:  # noqa
+            note("2D predicate raised %s" % type(e).__name__, False, None)
+    for site, R in bad.items():
+        dd = group_distance(np.asarray(R, dtype=float), R.shape[0] - (1 if R.shape[0] in (4,) or site.endswith("ishom2") else 0), R.shape[0] == 4 or site.endswith("ishom2")) if R is not None else 0.0
+        c.fail(site + "/rejects_constructor_output", "%s: a matrix produced by the library's own constructor was refused (distance from the group %.3g)" % (site, dd), distance=dd)
+    return c.out
+
+
 def check_case(case):
+    if case.get("kind") == "accept_many":
+        return _accept_many(case)
     return {"ctor": _ctor, "pred": _pred}[case["kind"]](case)
 
 
@@ -556,6 +619,8 @@ def _pred(case):
 
 
 def classify(case):
+    if case.get("kind") == "accept_many":
+        return {"kind:accept_many": True, "nontrivial": True}
     k = case["kind"]
     lab = {"kind:" + k: True, "defect:" + case["defect"]: True}
     refl = case["defect"] in ("reflect", "swap", "inplace", "wholescale")
@@ -576,4 +641,5 @@ def subchecks(tier):
         Sub("pred_cells", gen=gen_pred_cells, shards=(2, 2)),
         Sub("ctor", strategy=s_ctor(), n=(600, 15000), shards=(6, 16)),
         Sub("pred", strategy=s_pred(), n=(400, 10000), shards=(5, 16)),
+        Sub("accept_constructor_outputs", strategy=s_accept_many(), n=(40, 400), shards=(8, 16)),
     ]
